@@ -256,14 +256,14 @@ func (e *Engine) SetLongest(longest bool) {
 }
 
 // searchStrategy returns the strategy that locates matches for the current
-// matching semantics. The reverse-search strategies (suffix, suffix set, inner)
-// and the digit prefilter find leftmost-first matches with DFAs; in
+// matching semantics. The reverse-search strategies (suffix, suffix set, inner,
+// multiline suffix) and the digit prefilter find leftmost-first matches with DFAs; in
 // leftmost-longest (POSIX) mode the NFA engines, which honour the longest flag,
 // do the search instead - like the DFA strategies do.
 func (e *Engine) searchStrategy() Strategy {
 	if e.longest {
 		switch e.strategy {
-		case UseReverseSuffix, UseReverseSuffixSet, UseReverseInner, UseDigitPrefilter:
+		case UseReverseSuffix, UseReverseSuffixSet, UseReverseInner, UseDigitPrefilter, UseMultilineReverseSuffix:
 			return UseNFA
 		}
 	}
